@@ -212,6 +212,11 @@ func Observe(name string, v any) {
 }
 
 func Bound(name string, v any) {}
+
+// BoundExceeded marks a path that ran into a depth bound of the harness before
+// reaching the state its assertions are about. Under the engine the path counts
+// as an unwinding failure (the check cannot pass); natively it is only printed.
+func BoundExceeded(label string) { fmt.Printf("BOUND-EXCEEDED %s\n", label) }
 func Note(msg string)          {}
 func Symbolic() bool           { return false }
 
